@@ -156,7 +156,7 @@ func goroutineLabel(g int) string {
 
 func init() {
 	defProp("C18",
-		"rapid-generated batches of 4-10 calls of the C03 grammar (distinct engine / offset / rect-clip objects per call) whose path arguments are shared slices from a pool of 1-3 path sets; the batch runs 2-3 times in each of 2, 4 or 8 goroutines at once (first round: all goroutines released together on the same call order, so that lazily initialised library state is first touched concurrently; later rounds: every goroutine starts at a different call) and only then once sequentially (the results of each call alone); the test binary is built with -race (GORACE=halt_on_error=1): a race report is a violation, every concurrent result must equal its sequential result, the shared inputs must be unchanged; non-trivial = at least two calls of the batch run sweeps / clippers on a shared input with >= 3 vertices",
+		"rapid-generated batches of 4-10 calls of the C03 grammar (distinct engine / offset / rect-clip objects per call) whose path arguments are shared slices from a pool of 1-3 path sets (and, for ClipperOffset.SharedDeltaCallback, one shared callback variable); the batch runs 2-3 times in each of 2, 4 or 8 goroutines at once (first round: all goroutines released together on the same call order, so that lazily initialised library state is first touched concurrently; later rounds: every goroutine starts at a different call) and only then once sequentially (the results of each call alone); the test binary is built with -race (GORACE=halt_on_error=1): a race report is a violation, every concurrent result must equal its sequential result, the shared inputs must be unchanged; non-trivial = at least two calls of the batch run sweeps / clippers on a shared input with >= 3 vertices",
 		[]string{"the harness does not control the schedule; the race detector reports unordered conflicting accesses that actually execute, whatever the timing",
 			"a case killed by the race detector is reported through a journal file, not shrunk"},
 		drawC18, judgeC18)
